@@ -587,6 +587,12 @@ def op_case(ctx, c):
             exp = ('ok', ('bool', [op(x, val) for x in items]))
             got = call(lambda: desc(op(a, val)))
             verdict(got, exp, 'compare', 'scalar')
+            # an Array compared with itself, with its copy, with a slice of all of it and with an equal rebuild: still item by item
+            # (a NaN item is not equal to itself)
+            for how, other in (('itself', a), ('its-copy', copy.copy(a)), ('its-full-slice', a[:]), ('an-equal-rebuild', Array(dt.spec, items))):
+                exp = ('ok', ('bool', [op(x, x) for x in items]))
+                got = call(lambda: desc(op(a, other)))
+                verdict(got, exp, 'compare', 'array&' + how)
             if 'items2' in c:
                 dt2 = BY_SPEC[c['dtype2']]
                 other = Array(dt2.spec, c['items2'])
@@ -643,6 +649,9 @@ def gen_op_case(ctx):
     elif kind == 'compare':
         c['op'] = rng.choice(list(CMP))
         c['val'] = rng.choice([0, 1, -1, hi, lo, 0.5] + (items[:1] if items else []))
+        if dt.family == 'float' and items and rng.random() < 0.4 and dt.name not in K.MINI:
+            items[rng.randrange(len(items))] = math.nan
+            c['items'] = items
         if rng.random() < 0.5:
             dt2 = rng.choice(INTS)
             k = len(items) if rng.random() < 0.9 else len(items) + 1
@@ -728,7 +737,11 @@ def run(ctx):
     for i in range(n):
         dt = rng.choice(POOL)
         k = rng.choice([0, 1, 2, 3, 5, 8, 8, 13, 40])
+        if i % 400 == 7:
+            k = rng.choice([255, 256, 257, 1024] + ([] if ctx.quick else [4096, 65536]))      # item counts at which a bulk path could take over
         items = [dt.rng_value(rng) for _ in range(k)]
+        if k >= 255 and rng.random() < 0.5:
+            items = [items[0]] * k if rng.random() < 0.5 else (items[:2] * k)[:k]               # ... and uniform / periodic content
         tr = rb(rng, rng.choice([0, 0, 0, 1, max(dt.width - 1, 0)])) if dt.width > 1 else ''
         case = {'dtype': dt.spec, 'items': items, 'trailing': tr, 'steps': []}
         ns = rng.randint(6, 12) if ctx.quick else rng.randint(6, 40)
